@@ -28,6 +28,7 @@ type scope struct {
 	preferLocal bool // local(x): an address-taken parameter is read from its cell (current value), not its entry value
 	world       int  // world index "W" refers to
 	nq          int
+	noOuter     bool           // do not look into frames above (internal to lookupIdent)
 	guardCallee string         // evaluating a guard on a call of this callee (lastarg of it = the previous call)
 	freeCells   map[string]Val // captured variables of a closure whose contract is applied at a call site (cell addresses)
 	pkg         *ssa.Package // package whose constants / variables are in scope (callee contracts)
@@ -109,6 +110,13 @@ func (x *Exec) evalBool(st *State, fr *Frame, e Expr, sc *scope) (Term, error) {
 }
 
 func (x *Exec) lookupIdent(st *State, fr *Frame, name string, sc *scope) (Val, error) {
+	if _, ok := sc.vars[name]; !ok && fr != nil {
+		// a local that was renamed since the ledger was recorded is followed by its definition (rename.go)
+		if n2 := renamedLocal(fr.fn, name); n2 != "" {
+			x.Abstracted["renamed local followed by its definition: "+name+" -> "+n2]++
+			name = n2
+		}
+	}
 	if v, ok := sc.vars[name]; ok {
 		if os.Getenv("GVC_TRACE_IDENT") == name {
 			fmt.Fprintf(os.Stderr, "ident %s from sc.vars: %s\n", name, v.T.S)
@@ -186,6 +194,42 @@ func (x *Exec) lookupIdent(st *State, fr *Frame, name string, sc *scope) (Val, e
 					return Val{T: t, Typ: ct}, nil
 				}
 			}
+		}
+	}
+	if fr != nil && st != nil && !sc.noOuter && x.inNewHelperChain(st, fr) {
+		// a clause of the function under contract evaluated inside a helper extracted from it: the
+		// name is a local that moved along (found by its definition), or a local of a frame above
+		if n2 := movedLocal(fr.fn, x.TopName, name); n2 != "" {
+			x.Abstracted["local that moved into an extracted helper, followed by its definition: "+name+" -> "+n2]++
+			return x.lookupIdent(st, fr, n2, sc)
+		}
+		for i := len(st.frames) - 1; i >= 0; i-- {
+			if st.frames[i] == fr {
+				for j := i - 1; j >= 0; j-- {
+					nsc := *sc
+					nsc.noOuter = true
+					if v, err := x.lookupIdent(st, st.frames[j], name, &nsc); err == nil {
+						return v, nil
+					}
+				}
+				break
+			}
+		}
+	}
+	if fr != nil && st != nil {
+		if v, ok := movedCallResult(st, fr.fn, name); ok {
+			x.Abstracted["local of the recorded function that named a call result, read from the call: "+name]++
+			return v, nil
+		}
+		if t := movedCallResultType(fr.fn, name); t != nil {
+			// the call did not happen on this path: an arbitrary value, as for any unbound local
+			key := "unboundlocal:" + name
+			if v, ok := sc.extra[key]; ok {
+				return v, nil
+			}
+			v := x.freshVal(st, "unbound."+name, t)
+			sc.extra[key] = v
+			return v, nil
 		}
 	}
 	// A local that exists in the function but is not bound on this path (e.g. an early return before
@@ -605,7 +649,7 @@ func fieldIndex(s *types.Struct, name string) int {
 			return i
 		}
 	}
-	return -1
+	return recordedFieldIndex(s, name) // a field renamed since the ledger was recorded (rename.go)
 }
 
 func (x *Exec) indexVal(st *State, sc *scope, xv, iv Val) (Val, error) {
@@ -725,6 +769,9 @@ func (x *Exec) evalCall(st *State, fr *Frame, e ECall, sc *scope) (Val, error) {
 		case SStr:
 			return Val{T: App(SInt, "str.len_", a.T), Typ: types.Typ[types.Int]}, nil
 		case SBytes:
+			if a.OfSlice != nil {
+				return Val{T: App(SInt, "s.len", *a.OfSlice), Typ: types.Typ[types.Int]}, nil
+			}
 			return Val{T: App(SInt, "bytes.len_", a.T), Typ: types.Typ[types.Int]}, nil
 		}
 		if a.Typ != nil {
@@ -1150,7 +1197,11 @@ func (x *Exec) evalCall(st *State, fr *Frame, e ECall, sc *scope) (Val, error) {
 		}
 		return Val{T: App(sf.res, sf.smtName, ts...)}, nil
 	}
-	if v, ok := x.specPure(st, x.heapFor(st, sc), e.Fun, args); ok {
+	stq := st
+	if sc.inQuant {
+		stq = nil // no side assumptions about terms that mention bound variables
+	}
+	if v, ok := x.specPure(stq, x.heapFor(st, sc), e.Fun, args); ok {
 		return v, nil
 	}
 	return Val{}, fmt.Errorf("unknown spec function %s", e.Fun)
